@@ -1,186 +1,101 @@
 import DustVerif.Proofs.TreeHandles
-/-! No creation / deletion / enable / probe operation panics while every counter is below its rail. -/
+/-! No creation / deletion / enable / probe operation of the (patched) entity tree panics — in ANY state. -/
 namespace DustVerif.Tree
 
-/-- every counter of every participant is at least `k` creations away from the last value of its field -/
-def RailFree (s : St) (k : Nat) : Prop :=
-  ∀ u, s.pubEver u + k ≤ 255 ∧ s.subEver u + k ≤ 255 ∧ s.topicEver u + k ≤ 65535 ∧ s.wEver u + k ≤ 65535 ∧
-    s.rEver u + k ≤ 65535
+/-- the operation neither kills the worker nor panics -/
+def Safe (s : St) (r : St × Res) : Prop := r.1.dead = s.dead ∧ r.2 ≠ .panic
 
-/-- the operation neither kills the worker nor panics, and uses up at most one step of head-room -/
-def Safe (s : St) (k : Nat) (r : St × Res) : Prop :=
-  RailFree r.1 k ∧ r.1.dead = s.dead ∧ r.2 ≠ .panic
+macro "safe_close" : tactic => `(tactic| exact ⟨rfl, by simp⟩)
 
-theorem RailFree.weaken {s : St} {k : Nat} (h : RailFree s (k + 1)) : RailFree s k := by
-  intro u; have := h u; omega
+theorem safe_createPart (s : St) (a : Bool) : Safe s (createPart s a) := by
+  unfold createPart; simp only; split <;> safe_close
+theorem safe_deletePart (s : St) (ph : Nat) : Safe s (deletePart s ph) := by
+  unfold deletePart; (repeat' split) <;> safe_close
+theorem safe_deletePub (s : St) (via : Nat) (r : GroupRef) : Safe s (deletePub s via r) := by
+  unfold deletePub; (repeat' split) <;> safe_close
+theorem safe_deleteSub (s : St) (via : Nat) (r : GroupRef) : Safe s (deleteSub s via r) := by
+  unfold deleteSub; (repeat' split) <;> safe_close
+theorem safe_deleteTopic (s : St) (via : Nat) (r : TopicRef) : Safe s (deleteTopic s via r) := by
+  unfold deleteTopic; (repeat' split) <;> safe_close
+theorem safe_deleteCft (s : St) (ph : Nat) (n : String) : Safe s (deleteCft s ph n) := by
+  unfold deleteCft; (repeat' split) <;> safe_close
+theorem safe_deleteWriter (s : St) (via : GroupRef) (w : EndRef) : Safe s (deleteWriter s via w) := by
+  unfold deleteWriter; (repeat' split) <;> safe_close
+theorem safe_deleteReader (s : St) (via : GroupRef) (w : EndRef) : Safe s (deleteReader s via w) := by
+  unfold deleteReader; (repeat' split) <;> safe_close
+theorem safe_deleteContained (s : St) (ph : Nat) : Safe s (deleteContained s ph) := by
+  unfold deleteContained; (repeat' split) <;> safe_close
+theorem safe_enablePart (s : St) (ph : Nat) : Safe s (enablePart s ph) := by
+  unfold enablePart; (repeat' split) <;> safe_close
+theorem safe_enableTopic (s : St) (r : TopicRef) : Safe s (enableTopic s r) := by
+  unfold enableTopic; (repeat' split) <;> safe_close
+theorem safe_enableWriter (s : St) (w : EndRef) : Safe s (enableWriter s w) := by
+  unfold enableWriter; (repeat' split) <;> safe_close
+theorem safe_enableReader (s : St) (w : EndRef) : Safe s (enableReader s w) := by
+  unfold enableReader; (repeat' split) <;> safe_close
+theorem safe_probe (s : St) (b : Bool) : Safe s (probe b s) := by
+  unfold probe; split <;> safe_close
 
-theorem RailFree.of_cnt {s s' : St} {k : Nat} (h : RailFree s (k + 1)) (c : Cnt s s') : RailFree s' k := by
-  obtain ⟨_, c1, c2, c3, c4, c5⟩ := c
-  intro u
-  rw [c1, c2, c3, c4, c5]
-  exact h.weaken u
-
-theorem no_overflow {pr : Profile} {n w : Nat} (hw : 0 < w) (hn : n + 1 ≤ w - 1) :
-    ¬ ((pr == Profile.debug && overflows n w) = true) := by
-  unfold overflows
-  have : n % w = n := Nat.mod_eq_of_lt (by omega)
-  rw [this]
-  intro h
-  simp at h
-  omega
-
-theorem bump_rail (m : Nat → Nat) (u k b : Nat) (h : ∀ v, m v + (k + 1) ≤ b) : ∀ v, bump m u v + k ≤ b := by
-  intro v; unfold bump setTo; split
-  · have := h u; omega
-  · have := h v; omega
-
-/-- close a branch in which the state keeps its counters -/
-macro "safe_same" h:ident : tactic => `(tactic|
-  exact ⟨RailFree.of_cnt $h ⟨rfl, rfl, rfl, rfl, rfl, rfl⟩, rfl, by simp⟩)
-
-theorem safe_createPart {s : St} {k : Nat} (h : RailFree s (k + 1)) (a : Bool) : Safe s k (createPart s a) := by
-  unfold createPart; safe_same h
-theorem safe_deletePart {s : St} {k : Nat} (h : RailFree s (k + 1)) (ph : Nat) : Safe s k (deletePart s ph) := by
-  unfold deletePart; (repeat' split) <;> safe_same h
-theorem safe_deletePub {s : St} {k : Nat} (h : RailFree s (k + 1)) (via : Nat) (r : GroupRef) :
-    Safe s k (deletePub s via r) := by
-  unfold deletePub; (repeat' split) <;> safe_same h
-theorem safe_deleteSub {s : St} {k : Nat} (h : RailFree s (k + 1)) (via : Nat) (r : GroupRef) :
-    Safe s k (deleteSub s via r) := by
-  unfold deleteSub; (repeat' split) <;> safe_same h
-theorem safe_deleteTopic {s : St} {k : Nat} (h : RailFree s (k + 1)) (via : Nat) (r : TopicRef) :
-    Safe s k (deleteTopic s via r) := by
-  unfold deleteTopic; (repeat' split) <;> safe_same h
-theorem safe_deleteCft {s : St} {k : Nat} (h : RailFree s (k + 1)) (ph : Nat) (n : String) :
-    Safe s k (deleteCft s ph n) := by
-  unfold deleteCft; (repeat' split) <;> safe_same h
-theorem safe_deleteWriter {s : St} {k : Nat} (h : RailFree s (k + 1)) (via : GroupRef) (w : EndRef) :
-    Safe s k (deleteWriter s via w) := by
-  unfold deleteWriter; (repeat' split) <;> safe_same h
-theorem safe_deleteReader {s : St} {k : Nat} (h : RailFree s (k + 1)) (via : GroupRef) (w : EndRef) :
-    Safe s k (deleteReader s via w) := by
-  unfold deleteReader; (repeat' split) <;> safe_same h
-theorem safe_deleteContained {s : St} {k : Nat} (h : RailFree s (k + 1)) (ph : Nat) :
-    Safe s k (deleteContained s ph) := by
-  unfold deleteContained; (repeat' split) <;> safe_same h
-theorem safe_enablePart {s : St} {k : Nat} (h : RailFree s (k + 1)) (ph : Nat) : Safe s k (enablePart s ph) := by
-  unfold enablePart; (repeat' split) <;> safe_same h
-theorem safe_enableTopic {s : St} {k : Nat} (h : RailFree s (k + 1)) (r : TopicRef) : Safe s k (enableTopic s r) := by
-  unfold enableTopic; (repeat' split) <;> safe_same h
-theorem safe_enableWriter {s : St} {k : Nat} (h : RailFree s (k + 1)) (w : EndRef) : Safe s k (enableWriter s w) := by
-  unfold enableWriter; (repeat' split) <;> safe_same h
-theorem safe_enableReader {s : St} {k : Nat} (h : RailFree s (k + 1)) (w : EndRef) : Safe s k (enableReader s w) := by
-  unfold enableReader; (repeat' split) <;> safe_same h
-theorem safe_probe {s : St} {k : Nat} (h : RailFree s (k + 1)) (b : Bool) : Safe s k (probe b s) := by
-  unfold probe; split <;> safe_same h
-
-theorem safe_createPub {s : St} {k : Nat} (h : RailFree s (k + 1)) (ph : Nat) (a : Bool) :
-    Safe s k (createPub s ph a) := by
+theorem safe_createPub (s : St) (ph : Nat) (a : Bool) : Safe s (createPub s ph a) := by
   unfold createPub
   split
-  · safe_same h
-  · rename_i p _
-    simp only
-    split
-    · rename_i hg
-      exact absurd hg (no_overflow (w := U8) (by decide) (by have := (h p.uid).1; unfold U8; omega))
-    · refine ⟨fun u => ⟨bump_rail _ _ _ _ (fun v => (h v).1) u, ?_⟩, rfl, by simp⟩
-      have := h u; simp only; omega
+  · safe_close
+  · simp only
+    split <;> safe_close
 
-theorem safe_createSub {s : St} {k : Nat} (h : RailFree s (k + 1)) (ph : Nat) (a : Bool) :
-    Safe s k (createSub s ph a) := by
+theorem safe_createSub (s : St) (ph : Nat) (a : Bool) : Safe s (createSub s ph a) := by
   unfold createSub
   split
-  · safe_same h
-  · rename_i p _
-    simp only
-    split
-    · rename_i hg
-      exact absurd hg (no_overflow (w := U8) (by decide) (by have := (h p.uid).2.1; unfold U8; omega))
-    · refine ⟨fun u => ⟨?_, bump_rail _ _ _ _ (fun v => (h v).2.1) u, ?_⟩, rfl, by simp⟩
-      · have := h u; simp only; omega
-      · have := h u; simp only; omega
+  · safe_close
+  · simp only
+    split <;> safe_close
 
-theorem safe_createTopic {s : St} {k : Nat} (h : RailFree s (k + 1)) (ph : Nat) (n : String) (kd : Bool) :
-    Safe s k (createTopic s ph n kd) := by
+theorem safe_createTopic (s : St) (ph : Nat) (n : String) (kd : Bool) : Safe s (createTopic s ph n kd) := by
   unfold createTopic
   split
-  · safe_same h
-  · rename_i p _
-    split
-    · safe_same h
+  · safe_close
+  · split
+    · safe_close
     · split
-      · safe_same h
+      · safe_close
       · simp only
-        split
-        · rename_i hg
-          exact absurd hg (no_overflow (w := U16) (by decide) (by have := (h p.uid).2.2.1; unfold U16; omega))
-        · refine ⟨fun u => ⟨?_, ?_, bump_rail _ _ _ _ (fun v => (h v).2.2.1) u, ?_⟩, rfl, by simp⟩
-          · have := h u; simp only; omega
-          · have := h u; simp only; omega
-          · have := h u; simp only; omega
+        split <;> safe_close
 
-theorem safe_createCft {s : St} {k : Nat} (h : RailFree s (k + 1)) (r : TopicRef) (n : String) :
-    Safe s k (createCft s r n) := by
+theorem safe_createCft (s : St) (r : TopicRef) (n : String) : Safe s (createCft s r n) := by
   unfold createCft
   split
-  · safe_same h
-  · rename_i p _
-    split
-    · safe_same h
+  · safe_close
+  · split
+    · safe_close
     · simp only
-      split
-      · rename_i hg
-        exact absurd hg (no_overflow (w := U16) (by decide) (by have := (h p.uid).2.2.1; unfold U16; omega))
-      · refine ⟨fun u => ⟨?_, ?_, bump_rail _ _ _ _ (fun v => (h v).2.2.1) u, ?_⟩, rfl, by simp⟩
-        · have := h u; simp only; omega
-        · have := h u; simp only; omega
-        · have := h u; simp only; omega
+      split <;> safe_close
 
-theorem safe_createWriter {s : St} {k : Nat} (h : RailFree s (k + 1)) (r : GroupRef) (t : String) (m : Option Nat)
-    (c : Bool) : Safe s k (createWriter s r t m c) := by
+theorem safe_createWriter (s : St) (r : GroupRef) (t : String) (m : Option Nat) (c : Bool) :
+    Safe s (createWriter s r t m c) := by
   unfold createWriter
   split
-  · safe_same h
-  · rename_i p _
-    split
-    · safe_same h
+  · safe_close
+  · split
+    · safe_close
     · split
-      · safe_same h
+      · safe_close
       · simp only
         split
-        · rename_i hg
-          exact absurd hg (no_overflow (w := U16) (by decide) (by have := (h p.uid).2.2.2.1; unfold U16; omega))
-        · have key : ∀ u, s.pubEver u + k ≤ 255 ∧ s.subEver u + k ≤ 255 ∧ s.topicEver u + k ≤ 65535 ∧
-              bump s.wEver p.uid u + k ≤ 65535 ∧ s.rEver u + k ≤ 65535 := by
-            intro u
-            have := h u
-            refine ⟨by omega, by omega, by omega, bump_rail _ _ _ _ (fun v => (h v).2.2.2.1) u, by omega⟩
-          split
-          · exact ⟨key, rfl, by simp⟩
-          · exact ⟨key, rfl, by simp⟩
+        · safe_close
+        · split <;> safe_close
 
-theorem safe_createReader {s : St} {k : Nat} (h : RailFree s (k + 1)) (r : GroupRef) (t : String) (c : Bool) :
-    Safe s k (createReader s r t c) := by
+theorem safe_createReader (s : St) (r : GroupRef) (t : String) (c : Bool) : Safe s (createReader s r t c) := by
   unfold createReader
   split
-  · safe_same h
-  · rename_i p _
-    simp only
+  · safe_close
+  · simp only
     split
-    · safe_same h
+    · safe_close
     · split
-      · safe_same h
+      · safe_close
       · split
-        · safe_same h
-        · split
-          · rename_i hg
-            exact absurd hg (no_overflow (w := U16) (by decide) (by have := (h p.uid).2.2.2.2; unfold U16; omega))
-          · refine ⟨fun u => ⟨?_, ?_, ?_, ?_, bump_rail _ _ _ _ (fun v => (h v).2.2.2.2) u⟩, rfl, by simp⟩
-            · have := h u; simp only; omega
-            · have := h u; simp only; omega
-            · have := h u; simp only; omega
-            · have := h u; simp only; omega
+        · safe_close
+        · split <;> safe_close
 
 /-- operations of the entity tree proper (everything except the writer instance calls, whose
     `expect("Writer topic must exist")` is a different panic site, outside C35) -/
@@ -188,35 +103,34 @@ def isTreeOp : Op → Bool
   | .inst _ _ => false
   | _ => true
 
-theorem safe_step {s : St} {k : Nat} (h : RailFree s (k + 1)) (op : Op) (ht : isTreeOp op = true) :
-    Safe s k (step s op) := by
+theorem safe_step (s : St) (op : Op) (ht : isTreeOp op = true) : Safe s (step s op) := by
   cases op with
-  | factoryQos a => exact ⟨RailFree.of_cnt h ⟨rfl, rfl, rfl, rfl, rfl, rfl⟩, rfl, by simp [step]⟩
-  | createPart a => exact safe_createPart h a
-  | deletePart ph => exact safe_deletePart h ph
-  | createPub ph a => exact safe_createPub h ph a
-  | deletePub via r => exact safe_deletePub h via r
-  | createSub ph a => exact safe_createSub h ph a
-  | deleteSub via r => exact safe_deleteSub h via r
-  | createTopic ph n k => exact safe_createTopic h ph n k
-  | deleteTopic via r => exact safe_deleteTopic h via r
-  | createCft r n => exact safe_createCft h r n
-  | deleteCft ph n => exact safe_deleteCft h ph n
-  | createWriter r t m c => exact safe_createWriter h r t m c
-  | deleteWriter via w => exact safe_deleteWriter h via w
-  | createReader r t c => exact safe_createReader h r t c
-  | deleteReader via w => exact safe_deleteReader h via w
-  | deleteContained ph => exact safe_deleteContained h ph
-  | enablePart ph => exact safe_enablePart h ph
-  | enableTopic r => exact safe_enableTopic h r
-  | enableWriter w => exact safe_enableWriter h w
-  | enableReader w => exact safe_enableReader h w
-  | probePart ph => exact safe_probe h _
-  | probePub r => exact safe_probe h _
-  | probeSub r => exact safe_probe h _
-  | probeTopic r => exact safe_probe h _
-  | probeWriter w => exact safe_probe h _
-  | probeReader w => exact safe_probe h _
+  | factoryQos a => exact ⟨rfl, by simp [step]⟩
+  | createPart a => exact safe_createPart s a
+  | deletePart ph => exact safe_deletePart s ph
+  | createPub ph a => exact safe_createPub s ph a
+  | deletePub via r => exact safe_deletePub s via r
+  | createSub ph a => exact safe_createSub s ph a
+  | deleteSub via r => exact safe_deleteSub s via r
+  | createTopic ph n k => exact safe_createTopic s ph n k
+  | deleteTopic via r => exact safe_deleteTopic s via r
+  | createCft r n => exact safe_createCft s r n
+  | deleteCft ph n => exact safe_deleteCft s ph n
+  | createWriter r t m c => exact safe_createWriter s r t m c
+  | deleteWriter via w => exact safe_deleteWriter s via w
+  | createReader r t c => exact safe_createReader s r t c
+  | deleteReader via w => exact safe_deleteReader s via w
+  | deleteContained ph => exact safe_deleteContained s ph
+  | enablePart ph => exact safe_enablePart s ph
+  | enableTopic r => exact safe_enableTopic s r
+  | enableWriter w => exact safe_enableWriter s w
+  | enableReader w => exact safe_enableReader s w
+  | probePart ph => exact safe_probe s _
+  | probePub r => exact safe_probe s _
+  | probeSub r => exact safe_probe s _
+  | probeTopic r => exact safe_probe s _
+  | probeWriter w => exact safe_probe s _
+  | probeReader w => exact safe_probe s _
   | inst w o => simp [isTreeOp] at ht
 
 end DustVerif.Tree
